@@ -179,7 +179,8 @@ class C16(Prop):
         "pb_counts_digital", "pb_counts_text", "pb_relisting_digital", "pb_relisting_text", "gsc_sum_nonneg",
         "gsc_identical_rows_fails_at", "blosum_identical_rows", "pairIdMx_spec", "blosum_relisting",
         "singleLinkage_numbering_not_first_seen", "gsc_relisting_fails_at", "pbText_is", "pbDigital_is",
-        "upgma_joins_minimum", "threshold_at_attained_identity", "idFilter_dropped_by_earlier", "idFilterText_keeps_earlier")]
+        "upgma_joins_minimum", "threshold_at_attained_identity", "idFilter_dropped_by_earlier", "idFilterText_keeps_earlier",
+        "idFilterDigital_keeps_better_ranked")]
     claimed = True
     technique = ("Lean 4 proof over the exact (Q) instance of a numeric-class-polymorphic executable model of esl_distance/esl_cluster/"
                  "esl_msacluster/esl_quicksort/esl_msaweight/esl_tree(UPGMA) + bit-exact differential correspondence of the Float instance "
